@@ -94,4 +94,18 @@ PROPS = {
         "trusted": COMMON_TRUST + ["globset (selection) and the system user database (chown) enter as oracle answers", "clap argument parsing"],
         "text": "per-command spec (frame+target+order) and idempotence proved over the transform model for both solid strategies; real pna editing runs compared with the model and with a frame/target/idempotence oracle",
     },
+    "C17": {
+        "lean": ["PnaVerif.Props.Consts", "PnaVerif.Props.C17"],
+        "families": ["list"],
+        "cli": True,
+        "trusted": COMMON_TRUST + ["globset (pattern matching) enters as an oracle answer", "tabled table layout, chrono time strings, serde_json encoding are not modelled"],
+        "text": "row production / solid omission / selection theorems; plain and tree output compared byte for byte with the model, jsonl field-wise, long row-wise; extract with the same patterns compared with the listed set",
+    },
+    "C11": {
+        "lean": ["PnaVerif.Props.Consts", "PnaVerif.Props.C11"],
+        "families": ["history"],
+        "cli": True,
+        "trusted": COMMON_TRUST + ["ignore's walker (which paths exist, in which order) enters as an oracle answer via the collect_items hook", "file mtimes compared as the kernel reports them"],
+        "text": "append/update/delete specifications and the history invariant proved over ordered entry lists; real pna histories on an evolving tree compared with the model after every step",
+    },
 }
